@@ -84,3 +84,31 @@ func TestDevC12Timing(t *testing.T) {
 		}
 	}
 }
+
+// TestDevConcreteGetters counts programs with a (T, *tr.E) getter that a notation or a same-named destination field reaches.
+func TestDevConcreteGetters(t *testing.T) {
+	if os.Getenv("VERIF_DEV") == "" {
+		t.Skip("dev only")
+	}
+	env := hx.LoadEnv("DEV")
+	pf := fullProfile()
+	pf.ErrHeavy = true
+	n, withG, inHome := 0, 0, 0
+	rapidRun(t, env, "x", 300, func(rt *rapid.T) {
+		p := pg.GenProg(rt, pf)
+		n++
+		for _, f := range p.Files() {
+			if strings.Contains(f.Data, "*tr.E) {") && f.Name != "home/zoo.go" {
+				withG++
+				if strings.HasPrefix(f.Name, "home/") {
+					inHome++
+				}
+				if withG < 3 {
+					t.Logf("%s\n%s\n%s", f.Name, f.Data, p.RenderSetup())
+				}
+				break
+			}
+		}
+	})
+	t.Logf("programs %d, with concrete-error getter %d (home %d)", n, withG, inHome)
+}
